@@ -34,6 +34,8 @@ type ehCase struct {
 	Executions int    `json:"executions"`
 	Final      string `json:"final"`
 	Second     string `json:"second"`
+	Kill       bool   `json:"kill"`
+	JType      string `json:"jtype"`
 }
 
 var failedRe = regexp.MustCompile(`entity (\S+) failed to process`)
@@ -121,11 +123,17 @@ func TestErrorHandling(t *testing.T) {
 			Source:   map[string]interface{}{"Type": "DatasetSource", "Name": "src-" + tag},
 			Sink:     map[string]interface{}{"Type": "DatasetSink", "Name": "snk-" + tag},
 			Triggers: []jobs.JobTrigger{{TriggerType: jobs.TriggerTypeCron, JobType: jobs.JobTypeIncremental, Schedule: "0 0 1 1 *", ErrorHandlers: handlers}}}
-		rejectFirst := 0
+		if c.JType == "fullsync" {
+			cfg.Triggers[0].JobType = jobs.JobTypeFull
+		}
+		rejectFirst, killOnCall := 0, 0
 		if c.Mode == "rerun" {
 			rejectFirst = c.OkAfter
+			if c.Kill {
+				killOnCall = 1
+			}
 		}
-		hj, err := w.Sched().VerifHandledJobFor(cfg, failIDs, rejectFirst, 0)
+		hj, err := w.Sched().VerifHandledJobFor(cfg, failIDs, rejectFirst, killOnCall)
 		if err != nil {
 			t.Fatal(err)
 		}
@@ -194,7 +202,15 @@ func TestErrorHandling(t *testing.T) {
 				div("executions", c.Executions, got)
 			}
 			lastErr, _, has := hj.Result()
-			if !has || (c.Final == "ok") != (lastErr == "") {
+			if c.Final == "killed" {
+				// how a kill is worded in the stored result is not prescribed: it must exist, and the slot be free
+				if !has {
+					div("job-result", "a stored run result", "none")
+				}
+				if !hj.Idle() {
+					div("job-slot", "run slot released", "still running")
+				}
+			} else if !has || (c.Final == "ok") != (lastErr == "") {
 				div("job-result", c.Final, lastErr)
 			}
 		}
